@@ -58,6 +58,10 @@ func errResultIndex(fn *ssa.Function) int {
 
 func classifyExit(ret *ssa.Return) ExitKind {
 	fn := ret.Parent()
+	if fn.Recover != nil && ret.Block() == fn.Recover {
+		// only reached when a deferred call recovered from a panic: not a normal completion
+		return ExitFailure
+	}
 	ei := errResultIndex(fn)
 	if ei < 0 {
 		return ExitNoErr
